@@ -65,6 +65,8 @@ pub struct StateRec {
     pub welcome_states: Vec<String>,
     /// state of the processed-welcome record per wrapper id ("" = none)
     pub welcome_dedup: Vec<String>,
+    /// which of the Nostr group ids the scenario ever uses currently resolve to the explored group (hex, sorted)
+    pub routes: Vec<String>,
 }
 
 pub struct Edge {
@@ -129,7 +131,23 @@ fn snapshot_state(c: &Client, w: &World, pool_ids: &[nostr::EventId], welcome_id
     let snap_queue: Vec<(u64, String, u64)> = with_mdk!(c, m => m.verif_snapshot_queue(&w.gid)).into_iter().map(|e| (e.epoch, e.applied_commit_id.to_hex(), e.applied_commit_ts)).collect();
     let mut snap_stored: Vec<String> = with_mdk!(c, m => { use mdk_storage_traits::MdkStorageProvider; use openmls::prelude::OpenMlsProvider; m.provider.storage().list_group_snapshots(&w.gid) }).unwrap_or_default().into_iter().map(|(n, _)| n).collect();
     snap_stored.sort();
-    StateRec { key_hash: h64(&key_s), obs_hash: h64(&obs_s), g, dedup, snap_queue, snap_stored, depth, parent, key_json: if keep { Some(key_s) } else { None }, auto_pending: false, send_ok, foreign_msgs, welcome_states, welcome_dedup }
+    // routing: every Nostr group id this scenario's group ever carries, asked of the client's store
+    let mut ids: std::collections::BTreeSet<String> = w.nodes.values().filter_map(|n| n.record["nostr_group_id"].as_str().map(|x| x.to_string())).collect();
+    if let Some(go) = &g {
+        if let Some(x) = go.record["nostr_group_id"].as_str() {
+            ids.insert(x.to_string());
+        }
+    }
+    let routes: Vec<String> = ids
+        .into_iter()
+        .filter(|h| {
+            let Ok(b) = hex::decode(h) else { return false };
+            let Ok(arr): Result<[u8; 32], _> = b.try_into() else { return false };
+            with_mdk!(c, m => { use mdk_storage_traits::groups::GroupStorage; use openmls::prelude::OpenMlsProvider; m.provider.storage().find_group_by_nostr_group_id(&arr) }).ok().flatten().map(|gr| gr.mls_group_id == w.gid).unwrap_or(false)
+        })
+        .collect();
+    let key_s = format!("{key_s}|routes={routes:?}");
+    StateRec { key_hash: h64(&key_s), obs_hash: h64(&obs_s), g, dedup, snap_queue, snap_stored, depth, parent, key_json: if keep { Some(key_s) } else { None }, auto_pending: false, send_ok, foreign_msgs, welcome_states, welcome_dedup, routes }
 }
 
 pub fn member_epoch(s: &StateRec) -> u64 {
